@@ -88,6 +88,42 @@ Proof.
 Qed.
 Print Assumptions C09_args_staged_each.
 
+(* Dyadic adverbs over a Python callable of two parameters: the call log is the definitional expansion of the
+   adverb — Each-Left a n:\bs = n(a;b1),..., Each-Right a n:/bs = n(b1;a),..., Each-Pair, Each-2 — one call per
+   element, in order, arguments in exactly that order ... *)
+Theorem C09_args_adverb_lists : forall n c l f ps st,
+  In l two_sigs -> sig_of c l -> c_lookup (scx st) n = Some (EPy c) -> never_raises c ->
+  adverb_calls f = Some ps ->
+  Forall (fun p => sval (scx st) (fst p) /\ sval (scx st) (snd p)) ps ->
+  run_form src_flags st n f =
+    (mkState (scx st) (log st ++ map (fun p => (pid c, [fst p; snd p])) ps),
+     RVal (VList (map (fun p => VPyRes (pid c) [fst p; snd p]) ps))).
+Proof. exact (fun n c l f ps st => adverb_pairs_exact src_flags n c l f ps st (eq_refl : kglambda_args_positional = true)). Qed.
+Print Assumptions C09_args_adverb_lists.
+
+(* ... with an ATOM on the right: a n:\b = n(a;b), a n:/b = n(b;a), a n/b = n(a;b) ... *)
+Theorem C09_args_adverb_atoms : forall n c l a b st,
+  In l two_sigs -> sig_of c l -> c_lookup (scx st) n = Some (EPy c) -> never_raises c ->
+  (forall bs, b <> VList bs) -> sval (scx st) a -> sval (scx st) b ->
+  run_form src_flags st n (FEachLeft a b) = applied st c [a; b] /\
+  run_form src_flags st n (FEachRight a b) = applied st c [b; a] /\
+  run_form src_flags st n (FOverN a b) = applied st c [a; b].
+Proof. exact (fun n c l a b st => adverb_atom_exact src_flags n c l a b st (eq_refl : kglambda_args_positional = true)). Qed.
+Print Assumptions C09_args_adverb_atoms.
+
+(* ... and the folds Over-Neutral, Scan-Over, Scan-Over-Neutral: step i applies n once to (running result, element i). *)
+Theorem C09_args_adverb_folds : forall n c l a v vs st,
+  In l two_sigs -> sig_of c l -> c_lookup (scx st) n = Some (EPy c) -> never_raises c ->
+  sval (scx st) a -> Forall (sval (scx st)) (v :: vs) ->
+  run_form src_flags st n (FOverN a (VList (v :: vs))) =
+    (mkState (scx st) (log st ++ over_log (pid c) a (v :: vs)), RVal (fold_left (fun x y => VPyRes (pid c) [x; y]) (v :: vs) a)) /\
+  run_form src_flags st n (FScan (v :: vs)) =
+    (mkState (scx st) (log st ++ over_log (pid c) v vs), RVal (VList (v :: scan_vals (pid c) v vs))) /\
+  run_form src_flags st n (FScanN a (VList (v :: vs))) =
+    (mkState (scx st) (log st ++ over_log (pid c) a (v :: vs)), RVal (VList (a :: scan_vals (pid c) a (v :: vs)))).
+Proof. exact (fun n c l a v vs st => adverb_fold_exact src_flags n c l a v vs st (eq_refl : kglambda_args_positional = true)). Qed.
+Print Assumptions C09_args_adverb_folds.
+
 (* R14, the behaviour before the fix (declared names looked up through the whole scope stack):
    signature (x, z) applied to (1, 2) raises at top level and receives (1, 9) inside a function
    whose z is 9. *)
